@@ -362,12 +362,36 @@ def presentation_consistency(A, prog, replay):
     A.require('presentation-claims/check_consistency-id-and-holder-agree', okp, r_pc, replay=replay)
 
 
+def claims_serde_shape(ctx, prog, kind):
+    """The JWT claims types are read member by member by serde's derived routines: a custom per-field deserialiser
+    (`deserialize_with` / `with`) shows up in the MIR as a helper `…::visit_map::<impl>::deserialize` nested in the derive of a type
+    declared in the claims file; none may exist (a lenient reader changes which tokens are accepted and what is handed back)."""
+    from replay import run_replay
+    fname = '%s/jwt_serialization.rs' % kind
+    name = '%s-claims/members-read-by-the-derived-deserialiser' % kind
+    helpers = [g.name for g in prog.funcs if re.search(r'jwt_serialization\.rs[^>]*>::deserialize::.*visit_(map|seq)::<impl at [^>]*>::deserialize$', g.name)
+               and (kind + '/jwt_serialization.rs') in g.name]
+    derives = [g.name for g in prog.funcs if re.search(r'<impl at [^>]*%s[^>]*>::deserialize$' % re.escape(fname), g.name)]
+    if not derives:
+        ctx.add(Ob(name, 'M', INCONCLUSIVE, detail='no derived Deserialize found for the types of %s' % fname))
+        return
+    if not helpers:
+        ctx.add(Ob(name, 'M', HELD, queries=len(derives), sample='%d derived Deserialize impls in %s, no per-field deserialiser helper' % (len(derives), fname)))
+        return
+    rep = {'scenario': 'presentation_validation' if kind == 'presentation' else 'claims'}
+    res = run_replay(rep)
+    ctx.add(Ob(name, 'M', VIOLATED if res.get('reproduced') else INCONCLUSIVE,
+               detail='custom per-field deserialiser in the claims type (%s); native: %s' % (helpers[0][-120:], res.get('detail', '')[:300]), replay=rep))
+
+
 def main(ctx):
     prog, info = load(CRATES, src_only=SRC)
     ctx.extra['mir'] = info
-    ctx.outside += ['the JSON text form (serde attributes, flatten, skip_serializing_if)', 'multi-subject credentials beyond their rejection',
+    ctx.outside += ['the JSON text form (serde rename / flatten / skip_serializing_if; that no member has a custom deserialiser is audited)', 'multi-subject credentials beyond their rejection',
                     'Timestamp::to_unix/from_unix being inverse on the range (C13)', 'Cow::into_owned / Borrowed being value-preserving']
     guarded(ctx, 'claims conversion wiring and consistency', 'M', lambda: run(ctx, prog))
+    for kind in ('credential', 'presentation'):
+        guarded(ctx, '%s claims serde shape' % kind, 'M', lambda kind=kind: claims_serde_shape(ctx, prog, kind))
     # presentations: expiry, issuance (nbf before iat) and audience are converted inside the presentation validator, not in
     # try_into_presentation - C03's obligation on that function is re-used
     import c03
